@@ -24,8 +24,8 @@ def run(ctx):
     common.standard(
         ctx, harness="hC19", extracted="C19_model", driver_dir="C19",
         rule=("unit cases: one real postprocessor object, Process called under recover (var/header: once per listed header "
-              "value; assert/response http+grpc; var/xpath; var/jsonpath); engine cases: real uri provider + http gun, or real "
-              "http/scenario provider + gun, under the real engine against a scripted misbehaving TCP target. non-trivial: "
+              "value; assert/response http+grpc; var/xpath; var/jsonpath); engine cases: real uri provider + http gun, real http/scenario provider + gun, real http2 gun (HTTP/2 TLS target), real connect gun (tunnel endpoint; "
+              "each case in a child process), with generated gun options, under the real engine against a scripted misbehaving TCP target. non-trivial: "
               "var/header chains containing substr with a non-empty value; assert cases with at least one condition; xpath "
               "cases whose expression is not a node set; every jsonpath case; engine cases with >1 step or a scenario; "
               "distinct = distinct case lines. Library outcomes (xpath value kind, json/jsonpath success) are inputs of the "
